@@ -67,6 +67,8 @@ enum Mode {
     Proofs,
 }
 const MODES: [Mode; 3] = [Mode::Plain, Mode::Term, Mode::Proofs];
+/// sessions end when the plain database exceeds this many tuples
+const MAX_TUPLES: usize = 250;
 
 fn mk(m: Mode) -> EGraph {
     match m {
@@ -190,7 +192,19 @@ fn gen_session(r: &mut Rng, with_delete: bool) -> Session {
             let t = g.term(d);
             g.p.pat_text(&t)
         };
-        let (text, kind): (String, &'static str) = if k < 38 {
+        let (text, kind): (String, &'static str) = if k < 5 {
+            // subsume scenario: insert, subsume, let the marking rules look, observe
+            let f = *g.r.pick(&g.unary);
+            let t = g.term(d.min(1));
+            let ft = g.p.pat_text(&Pat::App(f, vec![t]));
+            cmds.push(ft.clone());
+            kinds.push("insert");
+            cmds.push(format!("(subsume {ft})"));
+            kinds.push("subsume");
+            cmds.push("(run marks 1)".to_string());
+            kinds.push("run");
+            ("(print-size Mark)".to_string(), "print-size")
+        } else if k < 38 {
             // base generator: inserts, unions, sets, rules, runs, subsume/delete
             let c = g.command();
             let kind = match &c {
@@ -346,11 +360,19 @@ fn gen_session(r: &mut Rng, with_delete: bool) -> Session {
         cmds.push("(run 2)".into());
         kinds.push("run");
     }
+    cmds.push("(run marks 1)".into());
+    kinds.push("run");
     cmds.push("(print-size)".into());
     kinds.push("print-size");
     let p = g.p.clone();
     let mut header = header_cmds(&p, g.r, costs);
     header.push("(relation Q (i64))".to_string());
+    // observer of subsumption: subsumed rows are invisible to rules
+    header.push("(relation Mark (S))".to_string());
+    header.push("(ruleset marks)".to_string());
+    for &u in &g.unary {
+        header.push(format!("(rule ((= x ({} y))) ((Mark x)) :ruleset marks)", p.decls[u].name));
+    }
     Session { p, header, cmds, kinds, cons_cmds: None }
 }
 
@@ -378,7 +400,7 @@ fn gen_cons_session(r: &mut Rng) -> Session {
         num = Some(decls.len());
         decls.push(Decl { name: "N".into(), kind: Kind::Ctor, args: vec![Sort::I] });
     }
-    let mut g = Gen { r, bias: Bias::C01, p: Program { decls, cmds: vec![] }, nullary, unary, binary, num, funcs: vec![], rels: vec![], nomerge: None };
+    let mut g = Gen { r, bias: Bias::C01, p: Program { decls, cmds: vec![] }, nullary, unary, binary, num, funcs: vec![], rels: vec![], nomerge: None, pending: vec![] };
     let n = g.r.range(3, 12);
     let mut cs = Vec::new();
     for _ in 0..n {
@@ -480,11 +502,23 @@ fn run_session(s: &Session, facts: &[String], do_reprint: bool, err_hist: &mut B
     let mut stopped = false;
     'cmds: for (k, (text, kind)) in all.iter().enumerate() {
         let mut obs: Vec<StepObs> = Vec::new();
+        let mut too_big = false;
         for (mi, eg) in engines.iter_mut().enumerate() {
             let t0 = Instant::now();
             progress(&format!("command {k} `{}` on the {} engine", short(text), mode_name(MODES[mi])), &input);
             obs.push(run_step(eg, text));
             times[mi] += t0.elapsed().as_secs_f64();
+            // explosive rule sets (e.g. associativity + commutativity) make the proofs engine take
+            // minutes per iteration; the property says nothing about time, so such a session ends
+            // here (deterministically, on the size of the PLAIN database) instead of being timed
+            if mi == 0 && eg.num_tuples() > MAX_TUPLES {
+                too_big = true;
+                break;
+            }
+        }
+        if too_big {
+            stopped = true;
+            break;
         }
         for mi in 1..3 {
             let (a, b) = (&obs[0], &obs[mi]);
